@@ -75,6 +75,31 @@ func SpecEofIdx(lines [][]byte, i int) int {
 //@   loop 0 invariant? counter: eof == i
 //@   loop 0 decreases eof + 1
 
+// ---- the --all walk of renumber-tests: every file gets exactly the treatment a single
+// invocation would give it (same check mode), one file's failure never stops the walk, and a
+// failure is remembered for the verdict of the run
+//@ contract TestRenumberer.RenumberTests#0
+//@   tags C13 C15 C16
+//@   results r
+//@   modifies fsWrites
+//@   checks[C13,C16] one-file-never-stops-the-walk: implies(called(processFile), r == nil)
+//@   checks[C13,C15] same-treatment-as-a-single-run: implies(called(processFile), argOf(processFile, 0) == path && argOf(processFile, 1) == checkOnly)
+//@   checks[C13,C16] a-failure-is-never-forgotten: implies(old(failed), failed)
+//@   checks[C13,C16] a-failure-is-recorded: implies(called(processFile) && resultOf(processFile, 0) != nil, failed)
+
+//@ contract TestRenumberer.RenumberTests
+//@   tags C13 C16
+//@   results r
+//@   modifies fsWrites
+//@   checks[C13,C16] a-failed-file-fails-the-run: implies(failed, r != nil)
+//@   checks[C16] a-failed-walk-fails-the-run: implies(called(WalkDir) && resultOf(WalkDir, 0) != nil, r != nil)
+
+//@ contract TestRenumberer.RenumberTest
+//@   tags C13 C15 C16
+//@   results r
+//@   modifies fsWrites
+//@   checks[C13,C15,C16] the-file-verdict-is-returned: called(processFile) && r == resultOf(processFile, 0) && argOf(processFile, 0) == filePath && argOf(processFile, 1) == checkOnly
+
 // File-level behaviour of renumber-tests for one file: never writes in check mode,
 // writes at most once and only the file it was given, writes exactly the renumbered
 // bytes and only when they differ from what was read; in check mode it fails exactly
